@@ -156,8 +156,6 @@ def _sources_for(q, run_dir, native=False):
         write_config(cfgdir, q.shares)
     flags = ["-DHAVE_CONFIG_H", "-D" + GUARD, "-I", cfgdir, "-I", os.path.join(REPO, "src"),
              "-I", os.path.join(VERIF, "harness/common"), "-I", os.path.join(VERIF, "spec")]
-    for inc in q.includes:
-        flags += ["-I", inc if os.path.isabs(inc) else os.path.join(REPO, inc)]
     flags += bdefs
     form = q.form
     if form:
@@ -201,6 +199,8 @@ def _sources_for(q, run_dir, native=False):
         srcs.append(os.path.join(VERIF, "harness/common/libc_stubs.c"))
     for g in q.gen_srcs:
         srcs.append(g(run_dir, q))
+    for inc in q.includes:       # (after gen_srcs: a generator may add its output directory)
+        flags += ["-I", inc if os.path.isabs(inc) else os.path.join(REPO, inc)]
     for part in getattr(q, "asm_parts", []):
         from . import asmgen
         p = asmgen.asm_part_source(run_dir, q, part)
